@@ -1,11 +1,564 @@
-/- Hand-written executable model (tie B): Transform.  Core Lean only — no Mathlib import in this file. -/
+/- Hand-written executable model (tie B): Transform.  Core Lean only — no Mathlib import in this file.
+
+   Models `gstools/transform/array.py` (scalar maps, discrete classification, force-moments, Box-Cox)
+   and the `Field.transform` wrappers of `gstools/transform/field.py` (checks, process / keep_mean
+   pipeline, store names).  The standard normal cdf `Φ` and its quantile function are *parameters*
+   (`cdf ppf : α → α`) of every definition that needs them; theorems keep them abstract, the driver
+   instantiates them on `Float` with the series / continued-fraction `erf`, `erfinv` below
+   (`Φ z = (1 + erf (z/√2))/2`; that scipy's `erf` is this function is part of what the
+   correspondence checks to 1e-13). -/
 import GSV.Proto
 open Lean GSV GSV.Proto GSV.Transc
 namespace GSV.Model.Transform
 
+variable {α : Type} [Arith α] [Transc α] [DecidableLT α] [DecidableLE α]
+
+/-! ## finite samples: `np.mean`, `np.var` -/
+
+def lsum (l : List α) : α := l.foldl (fun a x => a + x) ((0:Nat):α)
+/-- `np.mean` -/
+def lmean (l : List α) : α := lsum l / ((l.length : Nat) : α)
+/-- `np.var` (population variance, `ddof = 0`) -/
+def lvar (l : List α) : α := lmean (l.map fun x => (x - lmean l) * (x - lmean l))
+
+/-! ## scalar maps of `array.py` -/
+
+/-- `(x - mean) / sqrt(var)`: the argument handed to `Φ` (the code hands `(x-mean)/sqrt(2 var)` to `erf`) -/
+def standardize (mean var x : α) : α := (x - mean) / sqrt var
+
+/-- `array_to_lognormal` -/
+def toLognormal (x : α) : α := exp x
+
+/-- `array_to_uniform` -/
+def toUniform (cdf : α → α) (mean var low high x : α) : α :=
+  cdf (standardize mean var x) * (high - low) + low
+
+/-- `_uniform_to_arcsin` -/
+def uniformToArcsin (a b u : α) : α :=
+  (b - a) * npow (sin (Transc.pi * (0.5:α) * u)) 2 + a
+
+/-- `_uniform_to_uquad` -/
+def uniformToUquad (a b u : α) : α :=
+  let al := ((12:Nat):α) / npow (b - a) 3
+  let be := (a + b) / ((2:Nat):α)
+  let ga := npow (a - b) 3 / ((8:Nat):α)
+  let y := ((3:Nat):α) * u / al + ga
+  (if ((0:Nat):α) < y then rpow y (((1:Nat):α) / ((3:Nat):α))
+   else if y < ((0:Nat):α) then -(rpow (-y) (((1:Nat):α) / ((3:Nat):α)))
+   else ((0:Nat):α)) + be
+
+/-- default bounds of `array_to_arcsin`: `mean ∓ sqrt(2 var)` -/
+def arcsinDefaultA (mean var : α) : α := mean - sqrt ((2.0:α) * var)
+def arcsinDefaultB (mean var : α) : α := mean + sqrt ((2.0:α) * var)
+/-- default bounds of `array_to_uquad`: `mean ∓ sqrt(5/3 var)` -/
+def uquadDefaultA (mean var : α) : α := mean - sqrt ((5.0:α) / (3.0:α) * var)
+def uquadDefaultB (mean var : α) : α := mean + sqrt ((5.0:α) / (3.0:α) * var)
+
+/-- `array_to_arcsin` (bounds `none` = default) -/
+def toArcsin (cdf : α → α) (mean var : α) (a b : Option α) (x : α) : α :=
+  uniformToArcsin (a.getD (arcsinDefaultA mean var)) (b.getD (arcsinDefaultB mean var))
+    (toUniform cdf mean var (0.0:α) (1.0:α) x)
+
+/-- `array_to_uquad` (bounds `none` = default) -/
+def toUquad (cdf : α → α) (mean var : α) (a b : Option α) (x : α) : α :=
+  uniformToUquad (a.getD (uquadDefaultA mean var)) (b.getD (uquadDefaultB mean var))
+    (toUniform cdf mean var (0.0:α) (1.0:α) x)
+
+/-- the standard-normal part of `array_zinnharvey`: `z ↦ Φ⁻¹(2 Φ(|z|) − 1)`
+    (the code writes `√2·erfinv(2·erf(|z|/√2) − 1)`) -/
+def zhCore (cdf ppf : α → α) (z : α) : α := ppf (((2:Nat):α) * cdf (fabs z) - ((1:Nat):α))
+
+/-- `array_zinnharvey` -/
+def zinnharvey (cdf ppf : α → α) (high : Bool) (mean var x : α) : α :=
+  let w := zhCore cdf ppf (standardize mean var x)
+  (if high then -w else w) * sqrt var + mean
+
+/-- `array_force_moments` -/
+def forceMoments (mean var : α) (l : List α) : List α :=
+  let varIn := lvar l
+  let meanIn := lmean l
+  let rescale := sqrt (var / varIn)
+  l.map fun x => rescale * (x - meanIn) + mean
+
+/-- `np.isclose(lmbda, 0)` with the default tolerances: `|λ| ≤ 1e-8` -/
+def lmbdaIsZero (lmbda : α) : Bool := decide (fabs lmbda ≤ (1e-8:α))
+
+def maxZero (x : α) : α := if x < ((0:Nat):α) then ((0:Nat):α) else x
+
+/-- `array_boxcox` (value part) -/
+def boxcox (lmbda shift x : α) : α :=
+  let r := x + shift
+  if lmbdaIsZero lmbda then toLognormal r
+  else rpow (maxZero (lmbda * r + ((1:Nat):α))) (((1:Nat):α) / lmbda)
+
+/-- `array_boxcox` (does it emit the "cut off" warning?): `min(lmbda * (field + shift) + 1) < 0` -/
+def boxcoxWarns (lmbda shift : α) (l : List α) : Bool :=
+  !lmbdaIsZero lmbda && l.any fun x => decide (lmbda * (x + shift) + ((1:Nat):α) < ((0:Nat):α))
+
+/-- `BoxCox(lmbda)._normalize` of `gstools.normalizer` -/
+def bcNormalize (lmbda y : α) : α :=
+  if lmbdaIsZero lmbda then log y else (rpow y lmbda - ((1:Nat):α)) / lmbda
+
+/-- `BoxCox(lmbda)._denormalize` -/
+def bcDenormalize (lmbda x : α) : α :=
+  if lmbdaIsZero lmbda then exp x else rpow (((1:Nat):α) + x * lmbda) (((1:Nat):α) / lmbda)
+
+/-! ## discrete / binary -/
+
+/-- `(values[1:] + values[:-1]) / 2` -/
+def midpoints : List α → List α
+  | a :: b :: t => (b + a) / ((2:Nat):α) :: midpoints (b :: t)
+  | _ => []
+
+/-- `np.all(thresholds[:-1] < thresholds[1:])` -/
+def ascending : List α → Bool
+  | a :: b :: t => decide (a < b) && ascending (b :: t)
+  | _ => true
+
+/-- `np.sort` -/
+def sortVals (l : List α) : List α := l.mergeSort fun a b => decide (a ≤ b)
+
+/-- "equal" thresholds: `mean + sqrt(2 var)·erfinv(2 i/n − 1) = mean + sqrt(var)·Φ⁻¹(i/n)`, `i = 1 … n−1` -/
+def equalThresholds (ppf : α → α) (mean var : α) (n : Nat) : List α :=
+  (List.range (n - 1)).map fun i => mean + sqrt var * ppf (((i + 1 : Nat) : α) / ((n : Nat) : α))
+
+/-- the loop `for i, value in enumerate(values[1:-1]): result[thr[i] < x <= thr[i+1]] = value`;
+    first argument: the remaining middle values, second: the thresholds from position `i` on -/
+def classifyMid : List α → List α → α → Option α → Option α
+  | v :: vs, t0 :: t1 :: ts, x, acc =>
+      classifyMid vs (t1 :: ts) x (if t0 < x ∧ x ≤ t1 then some v else acc)
+  | _, _, _, acc => acc
+
+/-- the masked writes of `array_discrete` for one entry `x`, in the order the code performs them;
+    `none` = the entry of `np.empty_like` was never written (only possible for NaN) -/
+def classify (v0 vlast : α) (mid : List α) (t0 tlast : α) (thr : List α) (x : α) : Option α :=
+  let r : Option α := none
+  let r := if x ≤ t0 then some v0 else r
+  let r := if tlast < x then some vlast else r
+  classifyMid mid thr x r
+
+inductive ThrMode (α : Type) where
+  | arithmetic
+  | equal (mean var : Option α)
+  | explicit (thr : List α)
+
+/-- values and thresholds as `array_discrete` prepares them (errors as exception class names) -/
+def discreteSetup (ppf : α → α) (field vals : List α) : ThrMode α → Except String (List α × List α)
+  | .arithmetic =>
+      let v := sortVals vals
+      pure (v, midpoints v)
+  | .equal mean var =>
+      let m := mean.getD (lmean field)
+      let s := var.getD (lvar field)
+      pure (vals, equalThresholds ppf m s vals.length)
+  | .explicit thr =>
+      if vals.length ≠ thr.length + 1 then throw "ValueError" else pure (vals, thr)
+
+/-- `array_discrete` -/
+def discrete (ppf : α → α) (field vals : List α) (mode : ThrMode α) : Except String (List (Option α)) := do
+  let (v, thr) ← discreteSetup ppf field vals mode
+  if !ascending thr then throw "ValueError"
+  match thr.head?, thr.getLast?, v.head?, v.getLast? with
+  | some t0, some tl, some v0, some vl =>
+      pure (field.map fun x => classify v0 vl (v.tail.dropLast) t0 tl thr x)
+  | _, _, _, _ => throw "IndexError"
+
+/-! ## `Field.transform` wrappers -/
+
+inductive NormKind (α : Type) where
+  | none
+  | lognormal
+  | boxcox (lmbda : α)
+
+/-- what the wrappers read from the `Field` object -/
+structure Cfg (α : Type) where
+  mean : α
+  sill : α
+  trend : Option α
+  norm : NormKind α
+
+def nan : α := ((0:Nat):α) / ((0:Nat):α)
+
+/-- `Normalizer.normalize`: `_normalize` on the open `normalize_range` (here `(0, ∞)`), NaN outside -/
+def NormKind.normalize : NormKind α → α → α
+  | .none, x => x
+  | .lognormal, x => if ((0:Nat):α) < x then log x else nan
+  | .boxcox l, x => if ((0:Nat):α) < x then bcNormalize l x else nan
+
+/-- `Normalizer.denormalize`: `_denormalize` on the open `denormalize_range`, NaN outside
+    (Box-Cox: `(-1/λ, ∞)` for `λ > 0`, `(-∞, -1/λ)` for `λ < 0`, everything when `isclose(λ, 0)`) -/
+def NormKind.denormalize : NormKind α → α → α
+  | .none, x => x
+  | .lognormal, x => exp x
+  | .boxcox l, x =>
+      if lmbdaIsZero l then bcDenormalize l x
+      else if l < ((0:Nat):α) then
+        (if x < -(((1:Nat):α) / l) then bcDenormalize l x else nan)
+      else (if -(((1:Nat):α) / l) < x then bcDenormalize l x else nan)
+
+def NormKind.isDefault : NormKind α → Bool
+  | .none => true
+  | _ => false
+
+def trendVal (c : Cfg α) : α := c.trend.getD ((0:Nat):α)
+
+/-- `_pre_process` = `remove_trend_norm_mean` with `mean=None if keep_mean else fld.mean` -/
+def preProcess (c : Cfg α) (keepMean : Bool) (x : α) : α :=
+  let y := c.norm.normalize (x - trendVal c)
+  if keepMean then y - ((0:Nat):α) else y - c.mean
+
+/-- `_post_process` = `apply_mean_norm_trend` -/
+def postProcess (c : Cfg α) (keepMean : Bool) (y : α) : α :=
+  let y := if keepMean then y + ((0:Nat):α) else y + c.mean
+  c.norm.denormalize y + trendVal c
+
+/-- `mean = 0.0 if process and not keep_mean else fld.mean` -/
+def usedMean (c : Cfg α) (process keepMean : Bool) : α :=
+  if process && !keepMean then (0.0:α) else c.mean
+
+/-- `apply_function` without the storage part -/
+def applyFunction (c : Cfg α) (process keepMean : Bool) (f : List α → Except String (List α))
+    (data : List α) : Except String (List α) := do
+  if process then
+    let r ← f (data.map (preProcess c keepMean))
+    pure (r.map (postProcess c keepMean))
+  else f data
+
+inductive Method (α : Type) where
+  | binary (divide upper lower : Option α)
+  | discrete (vals : List α) (mode : ThrMode α)
+  | boxcox (lmbda shift : α)
+  | zinnharvey (high : Bool)
+  | forceMoments
+  | lognormal
+  | uniform (low high : α)
+  | arcsin (a b : Option α)
+  | uquad (a b : Option α)
+
+/-- `_check_for_default_normal` (the mean of the modelled configurations is always a constant) -/
+def checkDefaultNormal (c : Cfg α) : Except String Unit :=
+  if !c.norm.isDefault then throw "ValueError"
+  else if c.trend.isSome then throw "ValueError"
+  else pure ()
+
+def unwrapDiscrete (r : List (Option α)) : List α := r.map fun o => o.getD (((0:Nat):α) / ((0:Nat):α))
+
+/-- the nine wrappers of `transform/field.py` (checks, keyword construction, `apply_function`) -/
+def fieldTransform (cdf ppf : α → α) (c : Cfg α) (process keepMean : Bool) (data : List α) :
+    Method α → Except String (List α)
+  | .binary divide upper lower => do
+      if !process && divide.isNone then checkDefaultNormal c
+      let mean : α := if process && !keepMean then (0.0:α) else c.mean
+      let divide := divide.getD mean
+      let upper := upper.getD (mean + sqrt c.sill)
+      let lower := lower.getD (mean - sqrt c.sill)
+      applyFunction c process keepMean
+        (fun d => (discrete ppf d [lower, upper] (.explicit [divide])).map unwrapDiscrete) data
+  | .discrete vals mode => do
+      let mode ← match mode with
+        | .equal _ _ => do
+            if !process then checkDefaultNormal c
+            pure (ThrMode.equal (some (usedMean c process keepMean)) (some c.sill))
+        | m => pure m
+      applyFunction c process keepMean (fun d => (discrete ppf d vals mode).map unwrapDiscrete) data
+  | .boxcox lmbda shift =>
+      applyFunction c process keepMean (fun d => pure (d.map (boxcox lmbda shift))) data
+  | .zinnharvey high => do
+      if !process then checkDefaultNormal c
+      applyFunction c process keepMean
+        (fun d => pure (d.map (zinnharvey cdf ppf high (usedMean c process keepMean) c.sill))) data
+  | .forceMoments => do
+      if !process then checkDefaultNormal c
+      applyFunction c process keepMean
+        (fun d => pure (forceMoments (usedMean c process keepMean) c.sill d)) data
+  | .lognormal => applyFunction c process keepMean (fun d => pure (d.map toLognormal)) data
+  | .uniform low high => do
+      if !process then checkDefaultNormal c
+      applyFunction c process keepMean
+        (fun d => pure (d.map (toUniform cdf (usedMean c process keepMean) c.sill low high))) data
+  | .arcsin a b => do
+      if !process then checkDefaultNormal c
+      applyFunction c process keepMean
+        (fun d => pure (d.map (toArcsin cdf (usedMean c process keepMean) c.sill a b))) data
+  | .uquad a b => do
+      if !process then checkDefaultNormal c
+      applyFunction c process keepMean
+        (fun d => pure (d.map (toUquad cdf (usedMean c process keepMean) c.sill a b))) data
+
+/-! ### stored fields: a state machine over `fld.field_names` / `fld[name]` -/
+
+/-- `store` argument: `True` / `False` / a name -/
+inductive Store where
+  | yes
+  | no
+  | name (n : String)
+
+/-- the stored fields, in `field_names` order -/
+abbrev FState (α : Type) := List (String × List α)
+
+def isIdentStart (c : Char) : Bool := c.isAlpha || c == '_'
+def isIdentChar (c : Char) : Bool := c.isAlphanum || c == '_'
+/-- `str.isidentifier` on ASCII names -/
+def isIdentifier (s : String) : Bool :=
+  match s.toList with
+  | [] => false
+  | c :: cs => isIdentStart c && cs.all isIdentChar
+
+def FState.lookup (st : FState α) (n : String) : Option (List α) := (st.find? fun p => p.1 == n).map (·.2)
+
+def FState.set (st : FState α) (n : String) (d : List α) : FState α :=
+  if st.any (fun p => p.1 == n) then st.map fun p => if p.1 == n then (n, d) else p
+  else st ++ [(n, d)]
+
+/-- `get_store_config(store, default=field)` -/
+def storeConfig (store : Store) (field : String) : String × Bool :=
+  match store with
+  | .yes => (field, true)
+  | .no => (field, false)
+  | .name n => (n, true)
+
+/-- one `fld.transform(method, field=…, store=…, process=…, keep_mean=…)` call.
+    `reserved` = the attribute names of the object (`dir(fld)`) that are not stored fields.
+    `check` = the wrapper's own checks run before the field is looked up. -/
+def step (cdf ppf : α → α) (c : Cfg α) (reserved : List String) (st : FState α)
+    (m : Method α) (field : String) (store : Store) (process keepMean : Bool) :
+    FState α × Except String (List α) :=
+  -- the wrapper checks (ValueError) precede the lookup of the field (KeyError)
+  let pre : Except String Unit :=
+    match m with
+    | .binary divide _ _ => if !process && divide.isNone then checkDefaultNormal c else pure ()
+    | .discrete _ (.equal _ _) => if !process then checkDefaultNormal c else pure ()
+    | .discrete _ _ => pure ()
+    | .boxcox _ _ => pure ()
+    | .lognormal => pure ()
+    | _ => if !process then checkDefaultNormal c else pure ()
+  match pre with
+  | .error e => (st, .error e)
+  | .ok _ =>
+    match st.lookup field with
+    | none => (st, .error "KeyError")
+    | some data =>
+      let (name, save) := storeConfig store field
+      match fieldTransform cdf ppf c process keepMean data m with
+      | .error e => (st, .error e)
+      | .ok out =>
+        if save then
+          if !isIdentifier name || (!(st.any fun p => p.1 == name) && reserved.contains name) then
+            (st, .error "ValueError")
+          else (st.set name out, .ok out)
+        else (st, .ok out)
+
+/-! ## `erf`, `erfc`, `erfinv` for the driver (series / continued fraction / Newton; ~1e-15 on `Float`) -/
+
+def zero : α := ((0:Nat):α)
+def one : α := ((1:Nat):α)
+def two : α := ((2:Nat):α)
+
+/-- `erf x = 2/√π · e^{-x²} · Σ 2ⁿ x^{2n+1} / (2n+1)!!` (all terms of one sign; used for `|x| < 1`) -/
+def erfSeries (x : α) : α :=
+  let x2 := x * x
+  let st := forRange 0 60 (x, x) fun n (st : α × α) =>
+    let t := st.2 * (two * x2) / ((2 * n + 3 : Nat) : α)
+    (st.1 + t, t)
+  two / sqrt Transc.pi * exp (-x2) * st.1
+
+/-- `erfc x` for `x ≥ 1` by the continued fraction `e^{-x²}/√π · 1/(x + (1/2)/(x + 1/(x + (3/2)/(x + …))))` -/
+def erfcCF (x : α) : α :=
+  let k := forRange 0 300 x fun i (k : α) => x + (((300 - i : Nat) : α) / two) / k
+  exp (-(x * x)) / (sqrt Transc.pi * k)
+
+def erfc (x : α) : α :=
+  if x < -(one : α) then two - erfcCF (-x)
+  else if x < one then one - erfSeries x
+  else erfcCF x
+
+def erf (x : α) : α :=
+  if x < -(one : α) then erfcCF (-x) - one
+  else if x < one then erfSeries x
+  else one - erfcCF x
+
+/-- `erfinv` on `[-1, 1]` (`∓∞` at the ends, NaN outside) by Newton iteration -/
+def erfinv (y : α) : α :=
+  let a := fabs y
+  if (one : α) < a then (zero : α) / zero
+  else if a < one then
+    let w :=
+      if a ≤ (0.5:α) then
+        -- concave increasing `erf w − a`, start left of the root: monotone Newton
+        forRange 0 12 (a * sqrt Transc.pi / two) fun _ (w : α) =>
+          w - (erfSeries w - a) / (two / sqrt Transc.pi * exp (-(w * w)))
+      else
+        -- solve `log erfc w = log q`, `q = 1 − a` (exact), concave decreasing
+        let q := one - a
+        let lq := log q
+        forRange 0 40 (sqrt (-lq)) fun _ (w : α) =>
+          let e := erfc w
+          w + (log e - lq) * e / (two / sqrt Transc.pi * exp (-(w * w)))
+    if y < zero then -w else w
+  else if y < zero then -(one / (zero : α)) else one / (zero : α)
+
+/-- `Φ z = (1 + erf(z/√2))/2` as the code composes it -/
+def cdfStd (z : α) : α := (0.5:α) * (one + erf (z / sqrt two))
+/-- `Φ⁻¹ p = √2·erfinv(2p − 1)` -/
+def ppfStd (p : α) : α := sqrt two * erfinv (two * p - one)
+
+/-! ## driver operations -/
+
+def getFloatOpt (j : Json) (k : String) : Except String (Option Float) :=
+  match j.getObjVal? k with
+  | .ok Json.null => pure none
+  | .ok v => do let x ← jsonToFloat v; pure (some x)
+  | .error _ => pure none
+
+def getBoolD (j : Json) (k : String) (d : Bool) : Bool :=
+  match j.getObjVal? k with
+  | .ok (Json.bool b) => b
+  | _ => d
+
+def getMode (j : Json) : Except String (ThrMode Float) := do
+  let m ← getStr j "mode"
+  match m with
+  | "arithmetic" => pure .arithmetic
+  | "equal" => do
+      let mean ← getFloatOpt j "tmean"; let var ← getFloatOpt j "tvar"
+      pure (.equal mean var)
+  | _ => do
+      let thr ← getFloats j "thr"
+      pure (.explicit thr.toList)
+
+def getMethod (j : Json) : Except String (Method Float) := do
+  let m ← getStr j "method"
+  match m with
+  | "binary" => do
+      pure (.binary (← getFloatOpt j "divide") (← getFloatOpt j "upper") (← getFloatOpt j "lower"))
+  | "discrete" => do
+      let vals ← getFloats j "vals"
+      pure (.discrete vals.toList (← getMode j))
+  | "boxcox" => do pure (.boxcox (← getFloat j "lmbda") (← getFloat j "shift"))
+  | "zinnharvey" => pure (.zinnharvey (getBoolD j "high" true))
+  | "force_moments" => pure .forceMoments
+  | "lognormal" => pure .lognormal
+  | "uniform" => do pure (.uniform (← getFloat j "low") (← getFloat j "high"))
+  | "arcsin" => do pure (.arcsin (← getFloatOpt j "a") (← getFloatOpt j "b"))
+  | "uquad" => do pure (.uquad (← getFloatOpt j "a") (← getFloatOpt j "b"))
+  | _ => throw s!"unknown method {m}"
+
+def getCfg (j : Json) : Except String (Cfg Float) := do
+  let mean ← getFloat j "cmean"
+  let sill ← getFloat j "sill"
+  let trend ← getFloatOpt j "trend"
+  let norm : NormKind Float ← match j.getObjVal? "norm" with
+    | .ok (Json.str "lognormal") => pure NormKind.lognormal
+    | .ok (Json.str "boxcox") => do pure (NormKind.boxcox (← getFloat j "norm_lmbda"))
+    | _ => pure NormKind.none
+  pure { mean, sill, trend, norm }
+
+def optOut (r : List (Option Float)) : Json :=
+  Json.arr (r.map fun o => match o with | some x => fbits x | none => Json.null).toArray
+
+def errOut (e : String) : Json := Json.mkObj [("exc", Json.str e)]
+
+def getStore (j : Json) : Store :=
+  match j.getObjVal? "store" with
+  | .ok (Json.bool false) => .no
+  | .ok (Json.str s) => .name s
+  | _ => .yes
+
+/-- a whole history of `fld.transform` calls on one field object -/
+def runHistory (c : Cfg Float) (reserved : List String) (st0 : FState Float) (calls : Array Json) :
+    Except String Json := do
+  let mut st := st0
+  let mut outs : Array Json := #[]
+  for cj in calls do
+    let m ← getMethod cj
+    let field ← getStr cj "field"
+    let (st', r) := step cdfStd ppfStd c reserved st m field (getStore cj) (getBoolD cj "process" false)
+      (getBoolD cj "keep_mean" true)
+    st := st'
+    let o := match r with
+      | .ok out => fl out
+      | .error e => errOut e
+    outs := outs.push (Json.mkObj [("ret", o), ("names", Json.arr (st.map fun p => Json.str p.1).toArray),
+      ("fields", Json.arr (st.map fun p => fl p.2).toArray)])
+  return Json.arr outs
+
 /-- line-protocol operations of this model; `none` = not one of mine -/
 def ops (op : String) (j : Json) : Option (Except String Json) :=
   match op with
+  | "c19_erf" => some (do
+      let x ← getFloats j "x"
+      return Json.arr #[fl (x.toList.map erf), fl (x.toList.map erfc)])
+  | "c19_erfinv" => some (do
+      let x ← getFloats j "x"
+      return fl (x.toList.map erfinv))
+  | "c19_cdf" => some (do
+      let x ← getFloats j "x"
+      return Json.arr #[fl (x.toList.map cdfStd), fl (x.toList.map ppfStd)])
+  | "c19_moments" => some (do
+      let x ← getFloats j "x"
+      return fl [lmean x.toList, lvar x.toList])
+  | "c19_array" => some (do
+      -- an array function called directly: optional mean / var default to the sample moments
+      let x ← getFloats j "x"
+      let xs := x.toList
+      let fn ← getStr j "fn"
+      let mean := (← getFloatOpt j "mean").getD (lmean xs)
+      let var := (← getFloatOpt j "var").getD (lvar xs)
+      match fn with
+      | "lognormal" => return fl (xs.map toLognormal)
+      | "uniform" => do
+          let low ← getFloat j "low"; let high ← getFloat j "high"
+          return fl (xs.map (toUniform cdfStd mean var low high))
+      | "arcsin" => do
+          return fl (xs.map (toArcsin cdfStd mean var (← getFloatOpt j "a") (← getFloatOpt j "b")))
+      | "uquad" => do
+          return fl (xs.map (toUquad cdfStd mean var (← getFloatOpt j "a") (← getFloatOpt j "b")))
+      | "u2arcsin" => do
+          let a ← getFloat j "a"; let b ← getFloat j "b"
+          return fl (xs.map (uniformToArcsin a b))
+      | "u2uquad" => do
+          let a ← getFloat j "a"; let b ← getFloat j "b"
+          return fl (xs.map (uniformToUquad a b))
+      | "zinnharvey" => return fl (xs.map (zinnharvey cdfStd ppfStd (getBoolD j "high" true) mean var))
+      | "force_moments" => do
+          let m ← getFloat j "tmean"; let v ← getFloat j "tvar"
+          return fl (forceMoments m v xs)
+      | "boxcox" => do
+          let l ← getFloat j "lmbda"; let s ← getFloat j "shift"
+          return Json.arr #[fl (xs.map (boxcox l s)), Json.bool (boxcoxWarns l s xs)]
+      | "bc_normalize" => do
+          let l ← getFloat j "lmbda"
+          return fl (xs.map (bcNormalize l))
+      | "bc_denormalize" => do
+          let l ← getFloat j "lmbda"
+          return fl (xs.map (bcDenormalize l))
+      | "discrete" => do
+          let vals ← getFloats j "vals"
+          match discrete ppfStd xs vals.toList (← getMode j) with
+          | .ok r => return optOut r
+          | .error e => return errOut e
+      | "thresholds" => do
+          let vals ← getFloats j "vals"
+          match discreteSetup ppfStd xs vals.toList (← getMode j) with
+          | .ok (v, t) => return Json.arr #[fl v, fl t]
+          | .error e => return errOut e
+      | _ => throw s!"c19_array: unknown fn {fn}")
+  | "c19_field" => some (do
+      let c ← getCfg j
+      let x ← getFloats j "x"
+      let m ← getMethod j
+      match fieldTransform cdfStd ppfStd c (getBoolD j "process" false) (getBoolD j "keep_mean" true) x.toList m with
+      | .ok r => return fl r
+      | .error e => return errOut e)
+  | "c19_history" => some (do
+      let c ← getCfg j
+      let reserved ← (do let v ← j.getObjVal? "reserved"; let a ← v.getArr?; a.mapM (·.getStr?))
+      let calls ← (do let v ← j.getObjVal? "calls"; v.getArr?)
+      let names ← (do let v ← j.getObjVal? "names"; let a ← v.getArr?; a.mapM (·.getStr?))
+      let fields ← (do let v ← j.getObjVal? "fields"; let a ← v.getArr?
+                       a.mapM fun f => do let b ← f.getArr?; b.mapM jsonToFloat)
+      let st0 : FState Float := (names.toList.zip (fields.toList.map (·.toList)))
+      runHistory c reserved.toList st0 calls)
   | _ => none
 
 end GSV.Model.Transform
